@@ -161,6 +161,45 @@ Proof.
   rewrite H1, IHa by assumption. reflexivity.
 Qed.
 
+(* a representable value carries only binary subtypes the validator accepts
+   (value_ok refuses 0x06..0x7f), so doc_bin_ok follows from doc_ok *)
+Lemma fv_doc_ok_bin_F : forall l,
+  Forall (fun kv : bytes * value => value_ok (snd kv) = true -> bin_ok (snd kv) = true) l ->
+  doc_ok l = true -> doc_bin_ok l = true.
+Proof.
+  induction 1 as [|[k x] r Hx _ IH]; intros Hok; [reflexivity|].
+  apply bs_doc_ok_cons in Hok. destruct Hok as (_ & Hvx & Hr).
+  cbn [doc_bin_ok]. cbn [snd] in Hx. rewrite (Hx Hvx), (IH Hr). reflexivity.
+Qed.
+
+Lemma fv_arr_ok_bin_F : forall a,
+  Forall (fun x => value_ok x = true -> bin_ok x = true) a ->
+  arr_ok a = true -> arr_bin_ok a = true.
+Proof.
+  induction 1 as [|x r Hx _ IH]; intros Hok; [reflexivity|].
+  cbn [arr_ok] in Hok. apply andb_true_iff in Hok. destruct Hok as [Hvx Hr].
+  cbn [arr_bin_ok]. rewrite (Hx Hvx), (IH Hr). reflexivity.
+Qed.
+
+Lemma value_ok_bin_ok : forall v, value_ok v = true -> bin_ok v = true.
+Proof.
+  induction v using value_ind'; intros Hok; try reflexivity.
+  - rewrite bs_ok_VDoc in Hok. rewrite fv_bin_VDoc. apply fv_doc_ok_bin_F; assumption.
+  - rewrite bs_ok_VArr in Hok. rewrite fv_bin_VArr. apply fv_arr_ok_bin_F; assumption.
+  - cbn [value_ok] in Hok. cbn [bin_ok]. unfold subtype_ok.
+    apply andb_true_iff in Hok. destruct Hok as [Hst _].
+    apply orb_true_iff in Hst. apply negb_true_iff. apply andb_false_iff.
+    destruct Hst as [Hst|Hst].
+    + left. apply N.ltb_ge. apply N.leb_le in Hst. exact Hst.
+    + right. apply andb_true_iff in Hst. destruct Hst as [Hst _].
+      apply N.ltb_ge. apply N.leb_le in Hst. exact Hst.
+  - rewrite bs_ok_VCws in Hok. apply andb_true_iff in Hok. destruct Hok as [_ Hs].
+    rewrite fv_bin_VCws. apply fv_doc_ok_bin_F; assumption.
+Qed.
+
+Theorem doc_ok_bin_ok : forall d, doc_ok d = true -> doc_bin_ok d = true.
+Proof. intros d H. rewrite <- fv_bin_VDoc. apply value_ok_bin_ok. rewrite bs_ok_VDoc. exact H. Qed.
+
 (* the frame of a document: header, terminator *)
 Lemma fv_read_i32_frame : forall body rest, small (frame body) ->
   read_i32 (frame body ++ rest) = Some (Z.of_nat (length body + 5), (body ++ [0]) ++ rest).
@@ -293,15 +332,15 @@ Proof.
 Qed.
 
 Theorem validate_enc_doc : forall d,
-  doc_ok d = true -> small (enc_doc d) -> doc_bin_ok d = true -> validate (enc_doc d) = true.
+  doc_ok d = true -> small (enc_doc d) -> validate (enc_doc d) = true.
 Proof.
-  intros d Hok Hs Hb. unfold validate, enc_doc in *.
+  intros d Hok Hs. pose proof (doc_ok_bin_ok d Hok) as Hb. unfold validate, enc_doc in *.
   apply fv_validate_elems; try assumption; [apply fv_enc_value_fuel|lia].
 Qed.
 
 Theorem frame_ok_enc : forall d,
-  doc_ok d = true -> small (enc_doc d) -> doc_bin_ok d = true -> frame_ok d.
+  doc_ok d = true -> small (enc_doc d) -> frame_ok d.
 Proof.
-  intros d Hok Hs Hb. split; [apply validate_enc_doc; assumption|].
+  intros d Hok Hs. split; [apply validate_enc_doc; assumption|].
   pose proof (dec_enc_doc d [] Hok Hs) as H. rewrite app_nil_r in H. exact H.
 Qed.
